@@ -9,7 +9,7 @@ import random
 from edgegraph.structure import Vertex
 from edgegraph.traversal import breadthfirst, depthfirst, helpers
 
-from egverif import graphs, oracles, trav
+from egverif import graphs, oracles, trav, zoo
 from egverif.common import ddmin
 
 RULE = (
@@ -31,7 +31,9 @@ SEARCH = {
 
 # stored values (by index) and how the *sought* object is built at run time
 NAN = float("nan")
-STORED = [0, 1, 2, 1000, "ab", ("x", 1), None, True, 2.5, "", -1, 10 ** 20, NAN]
+# (the last four are callables: a vertex tagged with a handler function, a payload class, a builtin - the sought value
+# is compared with ==, never called)
+STORED = [0, 1, 2, 1000, "ab", ("x", 1), None, True, 2.5, "", -1, 10 ** 20, NAN, zoo.r_accept, zoo.r_reject, len, zoo.VSub]
 
 
 def sought(i):
@@ -39,7 +41,7 @@ def sought(i):
     v = STORED[i]
     if v is NAN:
         return v  # the identical object: identity does not imply equality, nan != nan, so nothing matches
-    if isinstance(v, bool) or v is None:
+    if isinstance(v, bool) or v is None or callable(v):
         return v
     if isinstance(v, int):
         return float(v) if abs(v) < 2 ** 50 else int(str(v))
@@ -80,7 +82,7 @@ def floors(ctx):
             "some_vertex_lacks_attr": 100, "match_only_outside_universe": 10, "cases_with_caching_on": 100, "identical_but_unequal_value_sought": 20,
             "match_through_class_level_attribute_or_property": 100,
             "cases_with_attribute_name_that_is_not_an_identifier": 100, "searches_over_unhashable_vertices": 50,
-            "cases_with_start_outside_the_universe": 50}
+            "cases_with_start_outside_the_universe": 50, "sought_value_is_callable": 50}
 
 
 def _matches(v, attr, val):
@@ -95,8 +97,21 @@ def run_case(ctx, spec, si, attr, vi, absent=None, _shrinking=False, cache=False
         Vertex.NEIGHBOR_CACHING = False
 
 
+def _stored_ref(i):
+    """JSON-able stand-in for a stored value that JSON cannot carry (a callable)."""
+    return ["@stored", i] if callable(STORED[i]) else STORED[i]
+
+
+def _resolved(spec):
+    attrs = spec.get("attrs") or {}
+    if not any(isinstance(v, list) and len(v) == 2 and v[0] == "@stored" for a in attrs.values() for v in a.values()):
+        return spec
+    return dict(spec, attrs={i: {k: (STORED[v[1]] if isinstance(v, list) and len(v) == 2 and v[0] == "@stored" else v)
+                                 for k, v in a.items()} for i, a in attrs.items()})
+
+
 def _run_case(ctx, spec, si, attr, vi, absent, _shrinking, cache):
-    g = graphs.build(spec)
+    g = graphs.build(_resolved(spec))
     if cache:
         ctx.count("cases_with_caching_on")
     start, uni = g.verts[si], g.uni
@@ -155,6 +170,8 @@ def _run_case(ctx, spec, si, attr, vi, absent, _shrinking, cache):
                 ctx.count("match_is_falsy")
             if getattr(exp, attr) is not val:
                 ctx.count("sought_not_identical")
+            if callable(val):
+                ctx.count("sought_value_is_callable")
             if attr not in vars(exp):
                 ctx.count("match_through_class_level_attribute_or_property")
         else:
@@ -241,7 +258,7 @@ def run(ctx):
         attrs = {}
         for i in range(nverts):
             if r.random() < 0.8:
-                attrs[str(i)] = {"key": STORED[r.choice(pool)]}
+                attrs[str(i)] = {"key": _stored_ref(r.choice(pool))}
         spec["attrs"] = attrs
         for _ in range(3):
             si = r.choice(starts)
@@ -259,7 +276,7 @@ def run(ctx):
             if outsiders and spec["uni"]:
                 so = r.choice(outsiders)
                 vi_ = r.choice(pool)
-                run_case(ctx, dict(spec, attrs={**attrs, str(so): {"key": STORED[vi_]}}), so, "key", vi_, cache=r.random() < 0.3)
+                run_case(ctx, dict(spec, attrs={**attrs, str(so): {"key": _stored_ref(vi_)}}), so, "key", vi_, cache=r.random() < 0.3)
                 ctx.count("cases_with_start_outside_the_universe")
         # vertices that cannot be hashed: whatever traversal lists them, its search finds the first match
         if k % 5 == 0:
@@ -271,7 +288,7 @@ def run(ctx):
         attrs2 = {i: dict(a) for i, a in attrs.items()}
         for i in range(nverts):
             if r.random() < 0.5:
-                attrs2.setdefault(str(i), {})[odd] = STORED[r.choice(pool)]
+                attrs2.setdefault(str(i), {})[odd] = _stored_ref(r.choice(pool))
         if any(odd in a for a in attrs2.values()):
             ctx.count("cases_with_attribute_name_that_is_not_an_identifier")
             run_case(ctx, dict(spec, attrs=attrs2), r.choice(starts), odd, r.choice(pool), cache=r.random() < 0.3)
